@@ -880,7 +880,20 @@ impl QueryRouter {
         let num_parameters = message_cursor.get_i16();
 
         for i in 0..num_parameters {
-            let mut len = message_cursor.get_i32() as usize;
+            let len = message_cursor.get_i32();
+
+            // NULL parameter: no value bytes follow.
+            if len < 0 {
+                continue;
+            }
+
+            let mut len = len as usize;
+
+            // Malformed message, don't read past the end.
+            if len > message_cursor.remaining() {
+                break;
+            }
+
             let format = match &parameter_format {
                 ParameterFormat::Text => ParameterFormat::Text,
                 ParameterFormat::Uniform(format) => *format.clone(),
@@ -920,6 +933,7 @@ impl QueryRouter {
                                 "Got wrong length for integer type parameter in bind: {}",
                                 len
                             );
+                            message_cursor.advance(len);
                             continue;
                         }
                     },
@@ -928,6 +942,9 @@ impl QueryRouter {
                 };
 
                 shards.insert(sharder.shard(value));
+            } else {
+                // Not a sharding key: skip over the value to stay aligned with the next parameter.
+                message_cursor.advance(len);
             }
         }
 
